@@ -127,9 +127,39 @@ func c08Events(c *c08Cast) []c08Event {
 
 // c08RunHistory replays a history of refresh events; after every event all
 // probes must show exactly the vector of the version the reference holds.
-func c08RunHistory(c *c08Cast, evs []c08Event, disk bool, via string, hist []int) (key string, viols []c14Viol) {
+// c08Variant: how the refresh is driven and what surrounds it.
+type c08Variant struct {
+	Name    string
+	Via     string      // UpdateCRLs (ticker path, no client chain) | UpdateCRL (with a client chain)
+	Trusted []*x509Cert // configured trusted_signature_certs
+	Bare    bool        // the accepted lists carry no crlExtensions (no authority key identifier, no CRL number)
+}
+
+func c08Variants(c *c08Cast) []c08Variant {
+	return []c08Variant{
+		{Name: "UpdateCRLs", Via: "UpdateCRLs"},
+		{Name: "UpdateCRL", Via: "UpdateCRL"},
+		// a configured trusted signer which has nothing to do with this CRL must not get in the way of the signer the first load found
+		{Name: "UpdateCRLs+unrelated-trusted-cert", Via: "UpdateCRLs", Trusted: []*x509Cert{c.p.CARSA.Cert}},
+		// lists without crlExtensions, and a re-keyed CA certificate (same name, other key) configured as trusted signer:
+		// two candidates by name, one of which verifies
+		{Name: "UpdateCRLs+bare-lists+rekeyed-trusted-cert", Via: "UpdateCRLs", Trusted: []*x509Cert{c.p.Sibling.Cert}, Bare: true},
+	}
+}
+
+func (c *c08Cast) doc(v int, bare bool) []byte {
+	if !bare {
+		return c.vers[v]
+	}
+	s := world.SimpleCRL(c.p.CA, int64(v), c.lists[v]...)
+	s.Exts = nil
+	return s.DER()
+}
+
+func c08RunHistory(c *c08Cast, evs []c08Event, disk bool, variant c08Variant, hist []int) (key string, viols []c14Viol) {
+	via := variant.Via
 	res := seqWorld(func() {
-		w := NewCW(CWOpt{Disk: disk, SigMode: config.SignatureValidationModeVerify, Strict: true})
+		w := NewCW(CWOpt{Disk: disk, SigMode: config.SignatureValidationModeVerify, Strict: true, Trusted: variant.Trusted})
 		defer os.RemoveAll(w.Dir)
 		if err := w.Provision(); err != nil {
 			panic(err)
@@ -137,7 +167,7 @@ func c08RunHistory(c *c08Cast, evs []c08Event, disk bool, via string, hist []int
 		vsched.Drain()
 		plan := &faultPlan{}
 		w.Repo().Factory = faultFactory{inner: w.Repo().Factory, plan: plan}
-		w.Net.Serve(urlA, "v1", c.vers[1])
+		w.Net.Serve(urlA, "v1", c.doc(1, variant.Bare))
 		inForce := 1
 		if got := c.probeAll(w); got != c.vector(1) {
 			viols = append(viols, c14Viol{"C08|setup", "first load does not show v1: " + got})
@@ -149,7 +179,7 @@ func c08RunHistory(c *c08Cast, evs []c08Event, disk bool, via string, hist []int
 			names = append(names, ev.Name)
 			*plan = faultPlan{}
 			if ev.OK > 0 {
-				w.Net.Serve(urlA, fmt.Sprintf("v%d", ev.OK), c.vers[ev.OK])
+				w.Net.Serve(urlA, fmt.Sprintf("v%d", ev.OK), c.doc(ev.OK, variant.Bare))
 			} else {
 				ev.Serve(c, w)
 				if ev.Fault != nil {
@@ -366,9 +396,11 @@ func RunC08(tier string, args []string) int {
 	exhaustive := true
 	deadline := time.Now().Add(20 * time.Minute)
 	for _, disk := range []bool{false, true} {
-		for _, via := range []string{"UpdateCRLs", "UpdateCRL"} {
+		for _, variant := range c08Variants(c) {
+			variant := variant
+			via := variant.Name
 			st := fw.BFS(len(evs), depth, 0, deadline, func(hist []int) (string, bool) {
-				key, viols := c08RunHistory(c, evs, disk, via, hist)
+				key, viols := c08RunHistory(c, evs, disk, variant, hist)
 				for _, v := range viols {
 					names := make([]string, len(hist))
 					for i, e := range hist {
